@@ -41,6 +41,10 @@ where
     }
     let q = Q::new(Amnt!(-1.25), us[0]);
     println!("{tag}|fmt|{}|{:>16.3}|{:<+12}|{:^20.1}|{:010.2}|", q, q, Q::new(Amnt!(7), us[us.len() - 1]), q, q);
+    // amount classes whose formatting goes through sign handling: negative zero (f64), zero, tiny negative
+    let nz = Q::new(Amnt!(0) * Amnt!(-1), us[0]);
+    let tiny = Q::new(Amnt!(-0.0004), us[0]);
+    println!("{tag}|fmt0|{}|{:+}|{:8.2}|{:+.1}|{}|{:.2}|{:+08.1}|", nz, nz, nz, nz, tiny, tiny, tiny);
     println!("{tag}|lookup|{:?}|{:?}", Q::unit_from_symbol(&us[0].symbol()), Q::unit_from_scale(us[us.len() - 1].scale()));
 }
 
